@@ -331,4 +331,78 @@ theorem reduce3_kept_partial (s s' : Vs3 K) (p : V3 K) (hok : Vs3Ok s) (hd : s.d
     | solid => exact absurd hc (by simp)
   · omega
 
+/-! ## `gjk::result`: the witnesses are the same convex combination of the original points, their difference is the projection -/
+
+/-- **barycentric reconstruction (2-D)**: after a reduction that kept a vertex or an edge, `result(simplex, false)` returns
+`w1 = Σ proj[i]·orig1[i]`, `w2 = Σ proj[i]·orig2[i]` — convex combinations (weights from `reduce2_kept`) of support points of
+shape 1 resp. shape 2 — and `w1 - w2` is exactly the returned nearest point `p` of the simplex, provided every live CSO vertex
+satisfies `point = orig1 - orig2` (true for `CSOPoint::new`, i.e. for everything `from_shapes` produces). -/
+theorem result2_gap (s s' : Vs2 K) (p : V2 K) (hok : Vs2Ok s)
+    (hc : ∀ c, Live2 s c → letI := fieldNum K sq; c.point = c.orig1.sub c.orig2) :
+    letI := fieldNum K sq
+    s.projectOriginAndReduce = some (s', p) → s'.dim ≤ 1 →
+    ((s'.result false).1.sub (s'.result false).2 = p) ∧
+    ((s'.dim = 0 ∧ (s'.result false).1 = s'.v0.orig1 ∧ (s'.result false).2 = s'.v0.orig2) ∨
+     (s'.dim = 1 ∧ (s'.result false).1 = (s'.v0.orig1.smul s'.p0).add (s'.v1.orig1.smul s'.p1) ∧
+        (s'.result false).2 = (s'.v0.orig2.smul s'.p0).add (s'.v1.orig2.smul s'.p1))) := by
+  letI := fieldNum K sq
+  intro h hd
+  rcases reduce2_kept sq s s' p hok h with ⟨d, hp0, e, l0⟩ | ⟨d, h0, h1, hs, e, l0, l1⟩ | ⟨d, _, _⟩
+  · have c0 := hc _ l0
+    have r1 : (s'.result false).1 = s'.v0.orig1 := by
+      simp only [Vs2.result, Vs2.result.go, d, Vs2.get, Vs2.getProj, hp0]
+      apply C05.v2_ext <;> simp [Vs2.result.go, Vs2.get, Vs2.getProj, V2.add, V2.smul, V2.zero]
+    have r2 : (s'.result false).2 = s'.v0.orig2 := by
+      simp only [Vs2.result, Vs2.result.go, d, Vs2.get, Vs2.getProj, hp0]
+      apply C05.v2_ext <;> simp [Vs2.result.go, Vs2.get, Vs2.getProj, V2.add, V2.smul, V2.zero]
+    exact ⟨by rw [r1, r2, e, c0], Or.inl ⟨d, r1, r2⟩⟩
+  · have c0 := hc _ l0
+    have c1 := hc _ l1
+    have r1 : (s'.result false).1 = (s'.v0.orig1.smul s'.p0).add (s'.v1.orig1.smul s'.p1) := by
+      simp only [Vs2.result, Vs2.result.go, d, Vs2.get, Vs2.getProj]
+      apply C05.v2_ext <;> simp [Vs2.result.go, Vs2.get, Vs2.getProj, V2.add, V2.smul, V2.zero]
+    have r2 : (s'.result false).2 = (s'.v0.orig2.smul s'.p0).add (s'.v1.orig2.smul s'.p1) := by
+      simp only [Vs2.result, Vs2.result.go, d, Vs2.get, Vs2.getProj]
+      apply C05.v2_ext <;> simp [Vs2.result.go, Vs2.get, Vs2.getProj, V2.add, V2.smul, V2.zero]
+    refine ⟨?_, Or.inr ⟨d, r1, r2⟩⟩
+    rw [r1, r2, e, c0, c1]
+    apply C05.v2_ext <;> simp only [V2.add, V2.smul, V2.sub] <;> ring
+  · omega
+
+/-! ## the bounds `gjk::closest_points` exits on -/
+
+/-- **lower bound (3-D)**: if `dir` is a unit vector and no point `c` of the configuration-space obstacle `C` goes further than
+`-min_bound` along `dir` (that is what the support point `from_shapes(dir)` certifies: `min_bound = -dir·support`), then every
+point of `C` is at least `min_bound` away from the origin. Squared form (`min_bound ≥ 0`). -/
+theorem gjk_lower_bound3 (C : V3 K → Prop) (dir : V3 K) (minBound : K)
+    (hunit : dir.x * dir.x + dir.y * dir.y + dir.z * dir.z = 1) (hmb : 0 ≤ minBound)
+    (hsup : ∀ c, C c → dir.x * c.x + dir.y * c.y + dir.z * c.z ≤ -minBound) :
+    ∀ c, C c → minBound * minBound ≤ c.x * c.x + c.y * c.y + c.z * c.z := by
+  intro c hcC
+  have h := hsup c hcC
+  have cs : (dir.x * c.x + dir.y * c.y + dir.z * c.z) ^ 2 ≤
+      (dir.x * dir.x + dir.y * dir.y + dir.z * dir.z) * (c.x * c.x + c.y * c.y + c.z * c.z) := by
+    nlinarith [sq_nonneg (dir.x * c.y - dir.y * c.x), sq_nonneg (dir.x * c.z - dir.z * c.x), sq_nonneg (dir.y * c.z - dir.z * c.y)]
+  rw [hunit, one_mul] at cs
+  nlinarith
+
+/-- **lower bound (2-D)** -/
+theorem gjk_lower_bound2 (C : V2 K → Prop) (dir : V2 K) (minBound : K)
+    (hunit : dir.x * dir.x + dir.y * dir.y = 1) (hmb : 0 ≤ minBound)
+    (hsup : ∀ c, C c → dir.x * c.x + dir.y * c.y ≤ -minBound) :
+    ∀ c, C c → minBound * minBound ≤ c.x * c.x + c.y * c.y := by
+  intro c hcC
+  have h := hsup c hcC
+  have cs : (dir.x * c.x + dir.y * c.y) ^ 2 ≤ (dir.x * dir.x + dir.y * dir.y) * (c.x * c.x + c.y * c.y) := by
+    nlinarith [sq_nonneg (dir.x * c.y - dir.y * c.x)]
+  rw [hunit, one_mul] at cs
+  nlinarith
+
+/-- **the precision test is a relative certificate**: with `max_bound = |proj|` an upper bound of the true distance `δ`
+(`proj` is a point of the obstacle) and `min_bound ≤ δ` a lower bound, the exit test `max_bound - min_bound ≤ ε_rel·max_bound`
+gives `max_bound - δ ≤ ε_rel·max_bound`: the reported gap exceeds the true separation by at most the factor `ε_rel = √(10ε)`. -/
+theorem gjk_precision_slack (maxBound minBound delta epsRel : K)
+    (hlo : minBound ≤ delta) (hhi : delta ≤ maxBound) (htest : maxBound - minBound ≤ epsRel * maxBound) :
+    0 ≤ maxBound - delta ∧ maxBound - delta ≤ epsRel * maxBound := ⟨by linarith, by linarith⟩
+
 end C01
